@@ -10,6 +10,7 @@ import SpsdkVerif.Model.Bimg
 import SpsdkVerif.Model.BimgSpec
 import SpsdkVerif.Proofs.Bimg
 import SpsdkVerif.Proofs.BimgAny
+import SpsdkVerif.Proofs.BimgDelimit
 
 namespace SpsdkVerif.C14
 open SpsdkVerif SpsdkVerif.Misc SpsdkVerif.BinImg SpsdkVerif.Bimg SpsdkVerif.Generated
@@ -246,8 +247,82 @@ theorem parse_any_memtype (ext : Ext) (fcbSup : Bool) (descs : List (List Seg)) 
       parseAny ext fcbSup descs b = .ok (j, 0, expectedFound 0 (mkSlots d.segs raws)) :=
   Bimg.parseAny_full' ext fcbSup descs i d raws hi h hsup hdel b hb hearlier
 
-/-! ## 7. `Delimit` discharged for application containers from the container models: Properties/XC14.lean (kept outside this
-    module's import closure so that another property's work in progress cannot block these obligations) -/
+/-! ## 7. `Delimit` discharged for application containers from the container models (C01 MBI, C07 HAB, C05 SB3.1 header)
+
+With `Ext.app` given by the container model, the hypothesis `Delimit.good` of `parse_export` holds for an exported
+container - it is a theorem of the container's own round trip, not an assumption.  Not available for AHAB and SB2.1 (no
+model of `AHABImage.parse` / `ImageHeaderV2.parse` in C06 / C04, see Proofs/BimgDelimit.lean). -/
+
+/-- MBI: `MasterBootImage.parse` (+ `validate()`) accepts every image `exportImage` emits, for every well-formed class and
+    option set (C01 `parse_export`, `reexport`); the class selection on the exported bytes is the hypothesis `hsel` -/
+theorem mbi_delimits {co : Crypto.CryptoOps} {env : Mbi.Env} {c : Mbi.Cls} {cfg : Mbi.Cfg} {signer : Mbi.Signer}
+    (h : Mbi.Hyp co env c cfg signer) (fixedType : Int) (family : List Mbi.Cls) (dek : Option Bytes)
+    (hdek : c.has .Mbi_MixinHmac = true → dek = cfg.hmacKey) (hdek' : c.family = some .encrypted → dek = cfg.hmacKey)
+    (e : Bytes) (he : Mbi.exportImage co c cfg signer = .ok e) (hne : e ≠ [])
+    (hsel : Mbi.selectClass fixedType family e = some c)
+    (ext : Ext) (fcbSup : Bool) (s : Seg) (hp : s.parser = .greedy) (hsz : s.size < 0)
+    (hext : ∀ data, ext.app s.kind data = mbiApp co env fixedType family dek data) :
+    parseSeg ext fcbSup s (e ++ []) = .present e :=
+  Bimg.mbi_delimits' h fixedType family dek hdek hdek' e he hne hsel ext fcbSup s hp hsz hext
+
+/-- HAB, signed and encrypted containers - full strength (C07 `hab_roundtrip_signed`): whatever `build` produces from a
+    well-formed authenticated / encrypted configuration is accepted by `HabContainer.parse`; no hypothesis about the application -/
+theorem hab_delimits_signed (cr : Crypto.CryptoOps) (hl : Crypto.CryptoLaws cr) (sg : Hab.Signer) (fuel : Nat) (c : Hab.Cfg) (b : Hab.Built)
+    (h : c.WF) (ha : c.flags ≠ 0) (hb : Hab.build cr sg fuel c = some b)
+    (hd : ∀ d, c.dcd = some d → Hab.DcdWF d) (hx : ∀ x, c.xmcd = some x → Hab.XmcdWF x)
+    (hm : Hab.macLenOk c.macLen = true) (hw : Hab.CsfWF c.version b.cmds)
+    (h2 : (Hab.getAut 2 b.cmds).isSome = Hab.isEnc c.flags)
+    (hne : Hab.exportImage c b ≠ [])
+    (ext : Ext) (fcbSup : Bool) (s : Seg) (hp : s.parser = .greedy) (hsz : s.size < 0)
+    (hext : ∀ data, ext.app s.kind data = habApp data) :
+    parseSeg ext fcbSup s (Hab.exportImage c b ++ []) = .present (Hab.exportImage c b) :=
+  Bimg.hab_delimits_of_roundtrip' c b _ (SpsdkVerif.C07.hab_roundtrip_signed cr hl sg fuel c b h ha hb hd hx hm hw h2)
+    hne ext fcbSup s hp hsz hext
+
+/-- HAB, unsigned containers - under the decidable `AppVisible` (C07 `hab_roundtrip_unsigned`): the application-offset
+    heuristic of `HabContainer.parse` finds the application.  Full strength is false there (finding C07-parse-app-offset-guess),
+    hence `_partial`. -/
+theorem hab_delimits_unsigned_partial (c : Hab.Cfg) (b : Hab.Built) (h : c.WF) (h0 : c.flags = 0)
+    (hd : ∀ d, c.dcd = some d → Hab.DcdWF d) (hx : ∀ x, c.xmcd = some x → Hab.XmcdWF x)
+    (happ : b.app.length = c.appBin.length) (hv : Hab.AppVisible c b.app)
+    (hne : Hab.exportImage c b ≠ [])
+    (ext : Ext) (fcbSup : Bool) (s : Seg) (hp : s.parser = .greedy) (hsz : s.size < 0)
+    (hext : ∀ data, ext.app s.kind data = habApp data) :
+    parseSeg ext fcbSup s (Hab.exportImage c b ++ []) = .present (Hab.exportImage c b) :=
+  Bimg.hab_delimits_of_roundtrip' c b _ (SpsdkVerif.C07.hab_roundtrip_unsigned c b h h0 hd hx happ hv) hne ext fcbSup s hp hsz hext
+
+/-- MBI rows end to end: with the container parser given by the C01 model, parsing the exported image recovers every supplied
+    segment for every init offset; the hypotheses speak about the supplied bytes only (see Proofs/BimgDelimit.lean) -/
+theorem parse_export_mbi_row {co : Crypto.CryptoOps} {env : Mbi.Env} {c : Mbi.Cls} {cfg : Mbi.Cfg} {signer : Mbi.Signer}
+    (hm : Mbi.Hyp co env c cfg signer) (fixedType : Int) (family : List Mbi.Cls) (dek : Option Bytes)
+    (hdek : c.has .Mbi_MixinHmac = true → dek = cfg.hmacKey) (hdek' : c.family = some .encrypted → dek = cfg.hmacKey)
+    (e : Bytes) (he : Mbi.exportImage co c cfg signer = .ok e)
+    (hsel : Mbi.selectClass fixedType family e = some c)
+    (ext : Ext) (fcbSup : Bool) (d : Desc) (init : Nat) (raws : List (Option Bytes))
+    (h : Ctx d init raws) (hsup : Supplied init (mkSlots d.segs raws))
+    (hkinds : ∀ s ∈ mkSlots d.segs raws, s.seg.parser = .raw ∨ s.seg.parser = .imageVersion ∨ s.seg.parser = .imageVersionAp ∨
+      s.seg.parser = .fcb ∨ s.seg.parser = .greedy)
+    (hext : ∀ s ∈ mkSlots d.segs raws, s.seg.parser = .greedy → ∀ data, ext.app s.seg.kind data = mbiApp co env fixedType family dek data)
+    (hraw : ∀ s ∈ mkSlots d.segs raws, s.present init = true → s.seg.parser = .raw →
+      (s.bytes.length : Int) = s.seg.size ∧ isPadding s.seg s.bytes = false)
+    (hiv : ∀ s ∈ mkSlots d.segs raws, s.present init = true →
+      (s.seg.parser = .imageVersion ∨ s.seg.parser = .imageVersionAp) → s.bytes.length = 4)
+    (hfcb : ∀ s ∈ mkSlots d.segs raws, s.present init = true → s.seg.parser = .fcb →
+      (s.bytes.length : Int) = s.seg.size ∧
+      (s.bytes.take 4 = BimgTables.fcbTag ∨ s.bytes.take 4 = BimgTables.fcbTagSwapped) ∧
+      (fcbSup = true → ext.fcbOk s.bytes = true) ∧ (fcbSup = false → isPadding s.seg s.bytes = false))
+    (hmbi : ∀ s ∈ mkSlots d.segs raws, s.present init = true → s.seg.parser = .greedy → s.bytes = e)
+    (b : Bytes) (hb : exportImg d init raws = .ok b) :
+    walk ext fcbSup init d.segs b = .ok (expectedFound init (mkSlots d.segs raws)) :=
+  Bimg.parse_export_mbi_row' hm fixedType family dek hdek hdek' e he hsel ext fcbSup d init raws h hsup hkinds hext hraw hiv hfcb hmbi b hb
+
+/-- SB3.1: a file that begins with an encoded header (fields in range) passes the header validation, whatever follows
+    (header reader of the C05 ROM model) -/
+theorem sb31_delimits (h : Sb31.Header) (wf : Sb31.Spec.HeaderWF h) (body : Bytes)
+    (ext : Ext) (fcbSup : Bool) (s : Seg) (hp : s.parser = .sb) (hsz : s.size < 0)
+    (hext : ∀ data, ext.app s.kind data = sb31App data) :
+    parseSeg ext fcbSup s ((Sb31.encHeader h ++ body) ++ []) = .present (Sb31.encHeader h ++ body) :=
+  Bimg.sb31_delimits' h wf body ext fcbSup s hp hsz hext
 
 /-! ## 8. Non-vacuity: a concrete row, concrete payloads, a concrete `Ext` -/
 
